@@ -132,23 +132,7 @@ func runC17(w *core.World, r *core.Report) {
 	}
 
 	// ---- R5 -----------------------------------------------------------------------------------
-	if fi := anchor(w, r, "engine", "(*DefaultEngine).Finish"); fi != nil {
-		var initdTrue []core.Edge
-		for _, b := range fi.Blocks {
-			for _, in := range b.Instrs {
-				if v, ok := in.(ssa.Value); ok {
-					if _, f, ok := core.LoadedField(v); ok && f == "initd" {
-						initdTrue = append(initdTrue, core.EdgesWhere(v, true)...)
-					}
-				}
-			}
-		}
-		for _, c := range core.CallsTo(fi, "persist.(*Persister).Save") {
-			ok, path := core.MustPass(c.(ssa.Instruction), core.NewCut().AddEdge(initdTrue...))
-			r.Check(ok && len(initdTrue) > 0, "R5", "engine.(*DefaultEngine).Finish: Save only for an initialised engine", c.Pos(), "behind initd==true",
-				"Finish can save although no input was ever accepted by this engine: after a refused request a blank or stale state overwrites the stored session: "+w.PathString(path))
-		}
-	}
+	checkFinishSavesOnlyInitialised(w, r, "R5")
 	ninit := 0
 	for _, fn := range w.FuncsIn("engine") {
 		for _, b := range fn.Blocks {
@@ -422,4 +406,34 @@ func acceptanceEdges(w *core.World, r *core.Report, fn *ssa.Function, input ssa.
 		}
 	}
 	return
+}
+
+// checkFinishSavesOnlyInitialised: every Persister.Save that Finish performs (itself or through a
+// helper of the engine) lies behind the initd==true edge: an engine that accepted nothing - a
+// refused input, or a request the pre-VM hook stopped - stores nothing.
+func checkFinishSavesOnlyInitialised(w *core.World, r *core.Report, rule string) {
+	fi := anchor(w, r, "engine", "(*DefaultEngine).Finish")
+	if fi == nil {
+		return
+	}
+	var initdTrue []core.Edge
+	for _, in := range allInstrs(fi) {
+		if v, ok := in.(ssa.Value); ok {
+			if _, f, ok := core.LoadedField(v); ok && f == "initd" {
+				initdTrue = append(initdTrue, core.EdgesWhere(v, true)...)
+			}
+		}
+	}
+	var sites []ssa.CallInstruction
+	sites = append(sites, core.CallsTo(fi, "persist.(*Persister).Save")...)
+	for _, c := range core.Calls(fi) {
+		if g := core.StaticCallee(c); g != nil && core.PkgOf(g) == "engine" && g != fi && len(core.CallsTo(g, "persist.(*Persister).Save")) > 0 {
+			sites = append(sites, c)
+		}
+	}
+	for _, c := range sites {
+		ok, path := core.MustPass(c.(ssa.Instruction), core.NewCut().AddEdge(initdTrue...))
+		r.Check(ok && len(initdTrue) > 0, rule, "engine.(*DefaultEngine).Finish: Save only for an initialised engine", c.Pos(), "behind initd==true",
+			"Finish can save although no input was ever accepted by this engine: after a refused request (or one the pre-VM hook stopped, whose deferred clean-up has already cleared TERMINATE) a blank or altered state overwrites the stored session: "+w.PathString(path))
+	}
 }
